@@ -170,8 +170,14 @@ def atomNode (o : Op1) (e : E) : Except Err E :=
   match e with
   | sf _ k => if kindOk o k then .ok (op1 o e) else .error .argumentType
   | vf _ k => if kindOk o k then .ok (op1 o e) else .error .argumentType
-  | op1 .minus _ => .error .attributeError       -- `expr.space.kind` …
-  | op1 .plus _ => .error .attributeError
+  | op1 .minus a =>
+      (match kindOf a with
+       | some k => if kindOk o k then .ok (op1 o e) else .error .argumentType
+       | none => .error .attributeError)           -- `expr.space` of a non-function
+  | op1 .plus a =>
+      (match kindOf a with
+       | some k => if kindOk o k then .ok (op1 o e) else .error .argumentType
+       | none => .error .attributeError)
   | _ => .ok (op1 o e)
 
 /-- all results, or the first error -/
@@ -372,7 +378,9 @@ def laplaceEval (d : Nat) : E → Except Err E
         let c := mulOf (numCoeffs as)
         let ps := (as.zip (laplaceEvalListE d as)).filter (fun p => !isNumber p.1)
         match ps with
-        | [(f, lf), (g, lg)] => do
+        | [(f, lf), (g, lg)] =>
+          if !(isComm d f && isComm d g) then .ok (mul [c, op1 .laplace (mulOf (nonNum as))])
+          else do
             -- laplace(f g) = f laplace g + g laplace f + 2 grad f . grad g
             let lf ← lf
             let lg ← lg
@@ -463,30 +471,85 @@ def dnProd : List (E × E) → E
   | [(_, r)] => r
   | (f, r) :: rest => add [mul [f, dnProd rest], mul [r, mulOf (rest.map (·.1))]]
 
+def okOrNone : Except Err E → Option E
+  | .ok r => some r
+  | .error _ => none
+
+/-- all results present, else `none` (the real code wraps the product branch in a bare `try`) -/
+def allSome : List (E × Option E) → Option (List (E × E))
+  | [] => some []
+  | (f, some r) :: rest => (allSome rest).map (fun l => (f, r) :: l)
+  | (_, none) :: _ => none
+
+def sideNormal : IK → E
+  | .minus => normal "MinusNormalVector:n"
+  | _ => normal "PlusNormalVector:n"
+
+def isNormal : E → Bool
+  | normal s => s == "NormalVector:n"
+  | _ => false
+
 mutual
-def ifaceEval (k : IK) : E → E
-  | add as => add (ifaceEvalList k as)
+/-- `cls.eval(expr)` for Jump / Average / Minus / Plus / NormalDerivative -/
+def ifaceEval (d : Nat) (k : IK) : E → Except Err E
+  | add as => do .ok (add (← ifaceEvalList d k as))
   | mul as =>
       let cs := as.filter isCoef
       let vs := as.filter (fun x => !isCoef x)
+      let fallback : E := op1 k.op (mulOf vs)
+      let pick (kk : IK) : List (E × Option E) :=
+        ((as.zip (ifaceEvalListE d kk as)).filter (fun p => !isCoef p.1)).map (fun p => (p.1, okOrNone p.2))
       let body : E :=
         if vs.isEmpty then one
         else match k with
-          | .jump =>
-              let js := (as.zip (ifaceEvalList .jump as)).filter (fun p => !isCoef p.1)
-              let av := (as.zip (ifaceEvalList .avg as)).filter (fun p => !isCoef p.1)
-              (jaProd ((js.zip av).map (fun p => (p.1.1, p.1.2, p.2.2)))).1
-          | .avg =>
-              let js := (as.zip (ifaceEvalList .jump as)).filter (fun p => !isCoef p.1)
-              let av := (as.zip (ifaceEvalList .avg as)).filter (fun p => !isCoef p.1)
-              (jaProd ((js.zip av).map (fun p => (p.1.1, p.1.2, p.2.2)))).2
-          | .dn => dnProd ((as.zip (ifaceEvalList .dn as)).filter (fun p => !isCoef p.1))
-          | s => sideProd ((as.zip (ifaceEvalList s as)).filter (fun p => !isCoef p.1))
-      mul [mulOf cs, body]
-  | e => op1 k.op e
-def ifaceEvalList (k : IK) : List E → List E
+          | .jump | .avg =>
+              (match allSome (pick .jump), allSome (pick .avg) with
+               | some js, some av =>
+                   let r := jaProd ((js.zip av).map (fun p => (p.1.1, p.1.2, p.2.2)))
+                   (match vs with
+                    | [_] => (match allSome (pick k) with
+                              | some [(_, r1)] => r1
+                              | _ => fallback)
+                    | _ => if k == .jump then r.1 else r.2)
+               | _, _ =>
+                   (match vs, allSome (pick k) with
+                    | [_], some [(_, r1)] => r1
+                    | _, _ => fallback))
+          | .dn => (match allSome (pick .dn) with
+                    | some rs => dnProd rs
+                    | none => fallback)
+          | s => (match allSome (pick s) with
+                  | some rs => sideProd rs
+                  | none => fallback)
+      .ok (mul [mulOf cs, body])
+  | op1 .dn u =>
+      (match k with
+       | .minus | .plus => do
+           -- Dot(Grad(cls(u)), cls(n))
+           let su ← ifaceEval d k u
+           let gu ← gradEval d su
+           mkBilin d .dot gu (sideNormal k)
+       | _ => .ok (op1 k.op (op1 .dn u)))
+  | mat r c es =>
+      (match k with
+       | .minus | .plus => do .ok (mat r c (← ifaceEvalList d k es))
+       | _ => .ok (op1 k.op (mat r c es)))
+  | e =>
+      match k with
+      | .minus | .plus =>
+          if isNormal e then .ok (sideNormal k)
+          else if isZeroNum e then .ok zero
+          else .ok (op1 k.op e)
+      | _ => .ok (op1 k.op e)
+def ifaceEvalList (d : Nat) (k : IK) : List E → Except Err (List E)
+  | [] => .ok []
+  | a :: as => do
+      let r ← ifaceEval d k a
+      let rs ← ifaceEvalList d k as
+      .ok (r :: rs)
+def ifaceEvalListE (d : Nat) (k : IK) : List E → List (Except Err E)
   | [] => []
-  | a :: as => ifaceEval k a :: ifaceEvalList k as
+  | a :: as => ifaceEval d k a :: ifaceEvalListE d k as
 end
 
 /-! ### S-expression interface -/
@@ -523,7 +586,7 @@ def handle (args : List Sexp) : String :=
            | "Div" => answer (divEval d a)
            | "Laplace" => answer (laplaceEval d a)
            | _ => (match ikOfName o with
-                   | some k => answer (.ok (ifaceEval k a))
+                   | some k => answer (ifaceEval d k a)
                    | none => "bad-op"))
       | _, _ => "bad-op"
   | _ => "bad-op"
